@@ -47,6 +47,8 @@ type Call struct {
 }
 
 type Case struct {
+	// Names: addresses of the pages ("" = /page<i>)
+	Names   []string `json:"names,omitempty"`
 	Ordered bool   `json:"ordered"`
 	Pages   []Page `json:"pages"` // page 0 is the collection itself
 	Start   uint   `json:"start"`
@@ -71,7 +73,21 @@ func (c Case) itemsKey() string {
 	return "items"
 }
 
-func pageURL(prefix string, i int) string { return "https://%H0%" + prefix + "/page" + fmt.Sprint(i) }
+// pageNames: how the remote pages of the case being checked are addressed ("" = /page<i>); set by check.
+var pageNames []string
+
+// cursorNames are page addresses as servers with opaque cursors produce them: equal up to letter case, one a prefix of
+// another, differing only in the query
+var cursorNames = []string{"/c?cursor=9xQaB", "/c?cursor=9xQab", "/c?cursor=9XQAB", "/C?cursor=9xqab", "/c?cursor=9xQaBc", "/c?cursor=9xQa", "/c?Cursor=9xQaB", "/c?cursor=9xQaB&x=1", "/c/9xQaB", "/c/9xqab"}
+
+func pagePath(i int) string {
+	if i < len(pageNames) && pageNames[i] != "" {
+		return pageNames[i]
+	}
+	return "/page" + fmt.Sprint(i)
+}
+
+func pageURL(prefix string, i int) string { return "https://%H0%" + prefix + pagePath(i) }
 
 // build returns the JSON value of page i as it appears where it is linked (embedded map, URL string, stub…)
 // and registers remote pages with the simulator.
@@ -136,7 +152,7 @@ func (c Case) install(prefix string) {
 	for i, p := range c.Pages {
 		if p.Remote {
 			b, _ := json.Marshal(c.doc(prefix, i))
-			sim.Set(0, prefix+"/page"+fmt.Sprint(i), vsim.JSON(string(b)))
+			sim.Set(0, prefix+pagePath(i), vsim.JSON(string(b)))
 		}
 	}
 	sim.Set(0, prefix+"/silent", &vsim.Route{Raw: "HTTP/1.1 200 OK\r\nContent-Type: application/activity+json\r\n\r\n{}", Fault: &vsim.Fault{Kind: "stall", At: 0, HoldMs: 1200}})
@@ -224,6 +240,7 @@ func construct(input any, source *url.URL) pub.Tangible {
 }
 
 func check(c Case) vrep.Result {
+	pageNames = c.Names
 	prefix := sim.NewPrefix()
 	c.install(prefix)
 	classes := []string{}
@@ -266,6 +283,15 @@ func check(c Case) vrep.Result {
 	for _, p := range c.Pages {
 		if len(p.Decor) > 0 {
 			classes = append(classes, "decorative-links")
+			break
+		}
+	}
+	if len(c.Names) > 0 {
+		classes = append(classes, "pages-addressed-by-look-alike-cursors")
+	}
+	for _, call := range c.Calls {
+		if call.N > 16 {
+			classes = append(classes, "request>16")
 			break
 		}
 	}
@@ -374,6 +400,9 @@ func gen(t *rapid.T) Case {
 	for i := 0; i < np; i++ {
 		p := Page{}
 		n := rapid.IntRange(0, 6).Draw(t, "nitems")
+		if rapid.SampledFrom([]int{0, 0, 0, 0, 0, 0, 0, 1}).Draw(t, "bigpage") == 1 {
+			n = rapid.SampledFrom([]int{16, 17, 20, 33, 40, 65}).Draw(t, "bign") // a page as big as servers make them
+		}
 		if rapid.IntRange(0, 3).Draw(t, "empty?") < emptyBias {
 			n = 0
 		}
@@ -433,10 +462,17 @@ func gen(t *rapid.T) Case {
 			lastp.BackTo = rapid.SampledFrom(remotes).Draw(t, "backto")
 		}
 	}
+	if rapid.SampledFrom([]int{0, 0, 0, 1}).Draw(t, "cursornames") == 1 {
+		perm := rapid.Permutation(cursorNames).Draw(t, "names")
+		c.Names = make([]string, np)
+		for i := 0; i < np && i < len(perm); i++ {
+			c.Names[i] = perm[i]
+		}
+	}
 	c.Start = uint(rapid.SampledFrom([]int{0, 0, 0, 1, 2, 5, 9}).Draw(t, "start"))
 	nc := rapid.IntRange(1, 12).Draw(t, "ncalls")
 	for i := 0; i < nc; i++ {
-		c.Calls = append(c.Calls, Call{N: uint(rapid.IntRange(0, 9).Draw(t, "n"))})
+		c.Calls = append(c.Calls, Call{N: uint(rapid.SampledFrom([]int{0, 1, 2, 3, 4, 5, 6, 7, 8, 9, 1, 2, 3, 5, 6, 16, 17, 20, 25, 40, 70}).Draw(t, "n"))})
 	}
 	return c
 }
